@@ -7,6 +7,8 @@
 mod c01;
 mod c02;
 mod c03;
+mod c08;
+mod tiered;
 mod c13;
 mod common;
 mod crash;
@@ -60,6 +62,7 @@ fn main() {
             "C02" => c02::replay(&plan, &mut sum),
             "C13" => c13::replay(&plan, &mut sum),
             "C03" => c03::replay(&plan, &mut sum),
+            "C08" => c08::replay(&plan, &mut sum),
             _ => Err(format!("unknown check {}", check)),
         };
         if let Err(e) = r {
@@ -72,6 +75,7 @@ fn main() {
             "C02" => c02::run_batch(seed, start, count, &tier, budget_ms, &mut sum),
             "C13" => c13::run_batch(seed, start, count, &tier, budget_ms, &mut sum),
             "C03" => c03::run_batch(seed, start, count, &tier, budget_ms, &mut sum),
+            "C08" => c08::run_batch(seed, start, count, &tier, budget_ms, &mut sum),
             _ => {
                 eprintln!("unknown check {}", check);
                 status = 2;
